@@ -87,7 +87,7 @@ func concPause(dir string, a []string) string {
 	case <-arrived:
 		held = true
 	case <-aDone:
-	case <-time.After(5 * time.Second):
+	case <-time.After(20 * time.Second):
 		return "err Hang A"
 	}
 	var post []string
@@ -121,12 +121,12 @@ func concPause(dir string, a []string) string {
 	}
 	select {
 	case <-aDone:
-	case <-time.After(5 * time.Second):
+	case <-time.After(20 * time.Second):
 		return "err Hang A-resume"
 	}
 	select {
 	case <-others:
-	case <-time.After(5 * time.Second):
+	case <-time.After(20 * time.Second):
 		return "err Hang others"
 	}
 	// calls after everything has returned: what the log looks like now
